@@ -491,8 +491,14 @@ func c08EveryLength(c *fw.Ctx, idx int) {
 						lo = float64(-(n - 1))
 					case 2*d-5 < 0:
 						lo = float64(1000000 * (2*d - 5))
+						if n == 1 {
+							hi = lo // the only coordinate carries the extreme: no zero beside it
+						}
 					default:
 						hi = float64(1000000 * (2*d - 5))
+						if n == 1 {
+							lo = hi
+						}
 					}
 					if b.Min(d) != lo || b.Max(d) != hi {
 						c.Fail("wrong-bounds", "%s of %d coordinates (extreme at coordinate %d): dimension %d is [%v, %v], exact [%v, %v]", how, n, j, d, b.Min(d), b.Max(d), lo, hi)
